@@ -845,3 +845,35 @@ B('g14m_ims_helper_runs_off_its_end', ['C14'], 'R14.m',
 B('g14e_ims_helper_other_request', ['C14'], 'R14.e',
   (ST, _APP_GFR, "    def get_cached_modify_time(self, request, previous=None):\n        return previous\n\n" + _APP_GFR),
   (ST, _APP_IMS, _APP_IMS_HELPER))
+# the same filter written in line (no helper): sibling divergence + the clock decides whether the validator is heard
+B('g14m_ims_inline_clock_filter_route', ['C14'], 'R14.m',
+  (ST, _SFR_GFR + "        bfr = build_file_response\n",
+       _SFR_GFR + "        bfr = build_file_response\n        since = request.if_modified_since\n"
+                  "        if since is not None and since > datetime.utcnow():\n            since = None\n"),
+  (ST, _SFR_IMS, "                   cached_modify_time=since,\n                   mimetype=self.mimetype,"))
+# a helper that decides by the clock between two spellings of the same header value still lets the clock choose: caught;
+# one that tests something else than the clock and returns the header on both branches is silent
+B('g14m_ims_helper_clock_window', ['C14'], 'R14.m',
+  (ST, _APP_GFR, "    def get_cached_modify_time(self, request):\n        now = datetime.utcnow()\n        stale = request.if_modified_since is not None and request.if_modified_since > now\n"
+                 "        if stale:\n            return None\n        return request.if_modified_since\n\n" + _APP_GFR),
+  (ST, _APP_IMS, _APP_IMS_HELPER))
+T('g14m_ims_helper_two_returns', ['C14'],
+  (ST, _APP_GFR, "    def get_cached_modify_time(self, request):\n        if self.cache_timeout:\n            return request.if_modified_since\n"
+                 "        return request.if_modified_since\n\n" + _APP_GFR),
+  (ST, _APP_IMS, _APP_IMS_HELPER))
+# other values that can move into a public helper: the caching switch, the looked-up path
+_APP_CT = "        resp = bfr(full_path,\n                   cache_timeout=self.cache_timeout,\n"
+_APP_CT_HELPER = "        resp = bfr(full_path,\n                   cache_timeout=self.get_cache_timeout(),\n"
+T('g14m_cache_timeout_helper_method', ['C14'],
+  (ST, _APP_GFR, "    def get_cache_timeout(self):\n        return self.cache_timeout\n\n" + _APP_GFR),
+  (ST, _APP_CT, _APP_CT_HELPER))
+B('g14m_cache_timeout_helper_off_in_debug', ['C14'], 'R14.m',
+  (ST, _APP_GFR, "    def get_cache_timeout(self):\n        if self.debug:\n            return 0\n        return self.cache_timeout\n\n" + _APP_GFR),
+  (ST, _APP_CT, _APP_CT_HELPER))
+_FIND_LINE = "            full_path = find_file(self.search_paths, path)\n"
+T('g14e_path_helper_method', ['C14'],
+  (ST, _APP_GFR, "    def request_path(self, path):\n        return path\n\n" + _APP_GFR),
+  (ST, _FIND_LINE, "            full_path = find_file(self.search_paths, self.request_path(path))\n"))
+B('g14e_path_helper_strips', ['C14'], 'R14.e',
+  (ST, _APP_GFR, "    def request_path(self, path):\n        return path.lstrip('.')\n\n" + _APP_GFR),
+  (ST, _FIND_LINE, "            full_path = find_file(self.search_paths, self.request_path(path))\n"))
